@@ -29,6 +29,20 @@ CHECKS = {
              "out-of-domain arguments, and R01.noeffect (no allocation) which is part of the C05/C08 fact base.",
         technique="abstract interpretation of -O2 LLVM IR in a polynomial domain; normal-form equality against a specification table",
     ),
+    "C02": dict(
+        engine="irval", category="proof",
+        text=("Random-access laws as closed-form identities on an arbitrary symbolic view, D=1..3 (4 thorough), mutable / const (/ move) "
+              "iterators, n>0 / n<0 / n=0: ++/-- inverse, (it+=n)-=n, (it+n)-it==n, it[n]==*(it+n), it<jt <=> jt-it>0, *(begin()+m)==v[f+m], "
+              "end()-begin()==size, copies and assigned iterators, post-increment, iterator==const_iterator. Flat ranges on an arbitrary "
+              "NON-contiguous descriptor: elements()[k], *(begin()+k), begin()[k] designate the element at the mixed-radix digits of k, "
+              "(it+a)-=b, it=jt, it[b], front/back, size, end-begin. next_canonical / prev_canonical are the mixed-radix successor / predecessor "
+              "for all 2^D carry patterns, to_linear(from_linear(k))==k. Type-level iterator contract (W02)."),
+        design_ref="DESIGN.md 3/C02",
+        note=IRNOTE + " Flat-range laws here are for zero-based views (re-based: C19). The ++/-- coupling of the flat iterator's position and "
+             "index tuple is decided structurally (R02.couple, engine A) together with O02.canon; data-dependent carries are covered by the "
+             "exhaustive carry-pattern case split, not by path enumeration.",
+        technique="abstract interpretation of -O2 LLVM IR in a polynomial domain (div/mod as hash-consed atoms) + compile-time witnesses",
+    ),
     "C19": dict(
         engine="irval", category="proof",
         text=("All C01 obligations re-evaluated with a free symbolic first index per dimension (offset_k = f_k*stride_k), plus reindexed, "
